@@ -3,6 +3,7 @@ import Aldy.Driver.C02
 import Aldy.Driver.C03
 import Aldy.Driver.C18
 import Aldy.Driver.C19
+import Aldy.Driver.C11
 
 /-! Line-protocol driver: one JSON object per input line (`{"op": ..., ...}`), one JSON
 object per output line.  Errors are reported as `{"error": msg}`; the driver never guesses. -/
@@ -25,6 +26,8 @@ def dispatch (j : Json) : Except String Json := do
   | "split_param" => opSplitParam j
   | "param_table" => opParamTable j
   | "guard" => opGuard j
+  | "diplotype" => opDiplotype j
+  | "natkey" => opNatKey j
   | "ping" => pure (objJ [("pong", boolJ true)])
   | _ => .error s!"unknown op {op}"
 
